@@ -420,7 +420,7 @@ def st_inputs(hiN):
             'gens': st.fixed_dictionaries({str(n): gen.st_herm(n) for n in range(1, N + 1)}),
             'obs': gen.st_commuting_obs(N, 1, N), 'stabs': gen.st_independent_stabs(N), 'sel': st.lists(st.integers(0, 1), min_size=4, max_size=40),
             'i0': st.integers(0, 7), 'bits': st.lists(st.integers(0, 1), min_size=N, max_size=N),
-            'prog': gen.st_program(N, 5, ['rot', 'fmap', 'bmap'])})
+            'prog': gen.st_program(N, 5, ['rot', 'rotc', 'fmap', 'bmap'])})
     return st.integers(1, hiN).flatmap(inner).map(lambda d: {'d': d})
 
 
